@@ -1410,6 +1410,14 @@ class OptionStore:
                 # to keep the old options. If they are not valid keep the new
                 # defaults but warn.
                 self.options[key] = value
+                # The new object takes the place of the old one: it keeps the
+                # yielding state and the parent, and options that yield to the
+                # old object now yield to the new one.
+                value.parent = oldval.parent
+                value.yielding = oldval.yielding
+                for child in self.options.values():
+                    if child.parent is oldval:
+                        child.parent = value
                 try:
                     value.set_value(oldval.value)
                 except MesonException:
@@ -1420,4 +1428,10 @@ class OptionStore:
         potential_removed_keys = self.options.keys() - project_options.keys()
         for key in potential_removed_keys:
             if self.is_project_option(key) and key.subproject == subproject:
+                # Options that yield to a removed option fall back to their own value.
+                removed = self.options[key]
+                for child in self.options.values():
+                    if child.parent is removed:
+                        child.parent = None
+                        child.yielding = False
                 self.remove(key)
